@@ -218,6 +218,7 @@ PROPS['C14'] = {
     'units': [
         {'test': 'TestC14Parsers', 'checks': {'quick': 20000, 'thorough': 4000000}, 'shards': {'quick': 2, 'thorough': 16}, 'timeout': {'quick': 300, 'thorough': 3000}},
         {'test': 'TestC14ParserNamesExhaustive', 'timeout': {'quick': 300, 'thorough': 300}},
+        {'test': 'TestC14ParserDictionary', 'timeout': {'quick': 300, 'thorough': 300}},
         {'test': 'TestC14Config', 'checks': {'quick': 8000, 'thorough': 600000}, 'shards': {'quick': 16, 'thorough': 16}, 'timeout': {'quick': 300, 'thorough': 3000}},
     ],
 }
